@@ -213,6 +213,8 @@ struct ThreadState {
     /// how many of them are attach helpers (control operations in flight)
     attach_helpers: u32,
     tl_guard: [Option<ThreadLocalTestSinkGuard>; 2],
+    /// a clone of the thread-local test sink that is installed right now
+    tl_sink: [Option<BoxEntrySink>; 2],
     rt_enter: Option<(u64, tokio::runtime::EnterGuard<'static>)>,
 }
 
@@ -233,7 +235,7 @@ fn catch<R>(f: impl FnOnce() -> R) -> Result<R, String> {
 }
 
 fn g_ops(plan: &Value, tno: u64, ops: &[Value], log: &GLog, hist: &History, rts: &'static [tokio::runtime::Runtime], ctl: &Arc<detsim::sync::Mutex<Ctl>>) {
-    let mut ts = ThreadState { slow_helpers: vec![], attach_helpers: 0, tl_guard: [None, None], rt_enter: None };
+    let mut ts = ThreadState { slow_helpers: vec![], attach_helpers: 0, tl_guard: [None, None], tl_sink: [None, None], rt_enter: None };
     let _ = plan;
     for op in ops {
         let name = js(op, "op", "").to_string();
@@ -388,16 +390,25 @@ fn g_ops(plan: &Value, tno: u64, ops: &[Value], log: &GLog, hist: &History, rts:
             }
             "tl_set" => {
                 let dest = ju(op, "dest", 0);
-                let sink = BoxEntrySink::new(Dest { no: dest, log: log.clone(), strict: jb(op, "strict", false), atomic: false, slow_drop: false });
+                let fresh = BoxEntrySink::new(Dest { no: dest, log: log.clone(), strict: jb(op, "strict", false), atomic: false, slow_drop: false });
+                // a second install while one is in place is refused whatever is installed - also the very sink that is
+                // installed already (every other time: a clone of it)
+                let sink = match &ts.tl_sink[gi] {
+                    Some(cur) if ts.tl_guard[gi].is_some() && detsim::choices() % 2 == 0 => cur.clone(),
+                    _ => fresh,
+                };
+                let keep = sink.clone();
                 match catch(|| with_global!(g, G => G::set_test_sink(sink))) {
                     Ok(guard) => {
                         ts.tl_guard[gi] = Some(guard);
+                        ts.tl_sink[gi] = Some(keep);
                         "ok".into()
                     }
                     Err(p) => format!("panic:{p}"),
                 }
             }
             "tl_drop" => {
+                ts.tl_sink[gi] = None;
                 if ts.tl_guard[gi].take().is_some() { "ok".into() } else { "none".into() }
             }
             "with_tl" => {
@@ -500,6 +511,7 @@ fn g_ops(plan: &Value, tno: u64, ops: &[Value], log: &GLog, hist: &History, rts:
         let _ = h.join();
     }
     ts.tl_guard = [None, None];
+    ts.tl_sink = [None, None];
     ts.rt_enter = None;
 }
 
